@@ -22,24 +22,28 @@ CONSTANTS Names, MaxOps, WithRefs, WithMove
 (* Move: the caller takes the group out of the root and attaches it below a *)
 (* new root-level group "h" (re-parenting through remove / add_child): the *)
 (* paths of everything in it change; every later render shows the new ones.*)
-VARIABLES root, grp, hist, last, inspect, marked, refs, moved
-svars == <<root, grp, hist, last, inspect, marked, refs, moved>>
-SOInit == root = <<"q0">> /\ grp = <<"g0">> /\ hist = <<>> /\ last = "none" /\ inspect \in BOOLEAN /\ marked = FALSE /\ refs = <<>> /\ moved = FALSE
+(* AddRepeat: the caller attaches a new repeat rp<k> holding a question and *)
+(* a calculation that refers to it; at every later render that reference   *)
+(* is relative (the repeat encloses both), as in a form built in one go.   *)
+VARIABLES root, grp, hist, last, inspect, marked, refs, moved, nrep
+svars == <<root, grp, hist, last, inspect, marked, refs, moved, nrep>>
+SOInit == root = <<"q0">> /\ grp = <<"g0">> /\ hist = <<>> /\ last = "none" /\ inspect \in BOOLEAN /\ marked = FALSE /\ refs = <<>> /\ moved = FALSE /\ nrep = 0
 Dup(s) == \E i, j \in 1..Len(s) : i # j /\ s[i] = s[j]
 \* the group itself is a child of the root named "grp"
 Ambiguous == Dup(root \o <<"grp">>) \/ Dup(grp)
-AddRoot(n) == Len(hist) < MaxOps /\ root' = Append(root, n) /\ hist' = Append(hist, <<"add_root", n>>) /\ UNCHANGED <<grp, last, inspect, marked, refs, moved>>
-AddGroup(n) == Len(hist) < MaxOps /\ grp' = Append(grp, n) /\ hist' = Append(hist, <<"add_group", n>>) /\ UNCHANGED <<root, last, inspect, marked, refs, moved>>
-Mark == Len(hist) < MaxOps /\ ~marked /\ marked' = TRUE /\ hist' = Append(hist, <<"mark", "q0">>) /\ UNCHANGED <<root, grp, last, inspect, refs, moved>>
+AddRoot(n) == Len(hist) < MaxOps /\ root' = Append(root, n) /\ hist' = Append(hist, <<"add_root", n>>) /\ UNCHANGED <<grp, last, inspect, marked, refs, moved, nrep>>
+AddGroup(n) == Len(hist) < MaxOps /\ grp' = Append(grp, n) /\ hist' = Append(hist, <<"add_group", n>>) /\ UNCHANGED <<root, last, inspect, marked, refs, moved, nrep>>
+Mark == Len(hist) < MaxOps /\ ~marked /\ marked' = TRUE /\ hist' = Append(hist, <<"mark", "q0">>) /\ UNCHANGED <<root, grp, last, inspect, refs, moved, nrep>>
 \* how many elements of the whole tree carry the name n (references are by bare name, whatever the section)
 Count(n) == Cardinality({i \in 1..Len(root) : root[i] = n}) + Cardinality({i \in 1..Len(grp) : grp[i] = n})
 RefBroken == \E i \in 1..Len(refs) : Count(refs[i]) # 1
 GroupPath == IF moved THEN <<"h", "grp">> ELSE <<"grp">>
 TargetPath(n) == IF \E i \in 1..Len(root) : root[i] = n THEN <<n>> ELSE Append(GroupPath, n)
-Move == WithMove /\ Len(hist) < MaxOps /\ ~moved /\ moved' = TRUE /\ hist' = Append(hist, <<"move", "grp">>) /\ UNCHANGED <<root, grp, last, inspect, marked, refs>>
-AddRef(n) == WithRefs /\ Len(hist) < MaxOps /\ Len(refs) < 2 /\ refs' = Append(refs, n) /\ hist' = Append(hist, <<"add_ref", n>>) /\ UNCHANGED <<root, grp, last, inspect, marked, moved>>
-Render == Len(hist) < MaxOps /\ last' = (IF Ambiguous \/ RefBroken THEN "rejected" ELSE "ok") /\ hist' = Append(hist, <<"render", last'>>) /\ UNCHANGED <<root, grp, inspect, marked, refs, moved>>
-SONext == (\E n \in Names : AddRoot(n) \/ AddGroup(n) \/ AddRef(n)) \/ Mark \/ Move \/ Render
+Move == WithMove /\ Len(hist) < MaxOps /\ ~moved /\ moved' = TRUE /\ hist' = Append(hist, <<"move", "grp">>) /\ UNCHANGED <<root, grp, last, inspect, marked, refs, nrep>>
+AddRef(n) == WithRefs /\ Len(hist) < MaxOps /\ Len(refs) < 2 /\ refs' = Append(refs, n) /\ hist' = Append(hist, <<"add_ref", n>>) /\ UNCHANGED <<root, grp, last, inspect, marked, moved, nrep>>
+Render == Len(hist) < MaxOps /\ last' = (IF Ambiguous \/ RefBroken THEN "rejected" ELSE "ok") /\ hist' = Append(hist, <<"render", last'>>) /\ UNCHANGED <<root, grp, inspect, marked, refs, moved, nrep>>
+AddRepeat == WithRefs /\ Len(hist) < MaxOps /\ nrep < 2 /\ nrep' = nrep + 1 /\ hist' = Append(hist, <<"add_repeat", "rp">>) /\ UNCHANGED <<root, grp, last, inspect, marked, refs, moved>>
+SONext == AddRepeat \/ (\E n \in Names : AddRoot(n) \/ AddGroup(n) \/ AddRef(n)) \/ Mark \/ Move \/ Render
 SOSpec == SOInit /\ [][SONext]_svars
 \* an accepted render implies an unambiguous tree at that moment (the history does not matter)
 AcceptedMeansUnambiguous == (Len(hist) > 0 /\ hist[Len(hist)][1] = "render" /\ hist[Len(hist)][2] = "ok") => ~Ambiguous
